@@ -11,6 +11,7 @@ use std::io::{BufRead, Write};
 
 fn main() {
     std::panic::set_hook(Box::new(|_| {}));
+    exec::start_watchdog();
     let args: Vec<String> = std::env::args().collect();
     let out = std::io::stdout();
     let mut out = std::io::BufWriter::new(out.lock());
